@@ -129,6 +129,11 @@ def gen_c09(seed, policy=None):
     beh = {"kind": "random", "p_event": rng.choice([0.5, 0.8, 1.0]), "p_future": 0.0, "ev_next": [None, None, 1]}
     if rng.random() < 0.2:
         scn = S.rename_sids(scn)  # the error must name the simulator whatever characters its id contains
+    if rng.random() < 0.25:
+        # the loops happen at LARGE simulation times (every simulator's first step announces time + jump), and replies may
+        # carry the optional output time equal to the step time
+        beh = dict(beh, jump=rng.choice([300, 1000, 86400]), p_time_echo=0.5, ev_next=[None, 1, 1])
+        scn = dict(scn, until=beh["jump"] + scn["until"])
     yield {"id": [seed, scn["maxloop"]], "scn": scn, "seed": seed, "behaviour": beh, "policy": dict(policy or {})}
 
 
@@ -200,6 +205,10 @@ PROFILES = {
             ("random", {"fam": {"shifts": (0, 1, 2, 3)}, "behaviour": {"p_future": 0.5, "future": [0, 1, 2, 3]}, "policy": {"early": 0.6}}),
             ("paths", {"frac": 0.3}),
             ("pending", {"frac": 0.15}),
+            # LARGE simulation times (every first step announces time + jump) and the optional output time = step time
+            # (no time-shifted connections here: a shifted trigger cycle would step at every one of the 1000 ticks in between)
+            ("random", {"fam": {"weak": 0.6, "until": (2, 4), "shifts": (0,), "selfloops": 0.0, "p_shift_weak": 0.0},
+                        "behaviour": {"jump": 1000, "p_time_echo": 0.5, "p_event": 0.9, "ev_next": [None, 1, 1], "p_future": 0.0}, "frac": 0.2}),
             # many simulators, sparse connections (heap / set / dictionary orders beyond a handful of simulators)
             ("random", {"fam": {"nsims": (8, 11), "nconns": (6, 14), "until": (2, 3), "weak": 0.2}, "frac": 0.08})],
     "C07": [("random", {"fam": {"types": ["event-based", "hybrid", "hybrid"], "until": (3, 5)}, "behaviour": {"ev_next": [None, 1, 2, 3]}}),
